@@ -209,6 +209,10 @@ func (interp *Interpreter) cfg(root *node, sc *scope, importPath, pkgName string
 						sc.add(sc.getType("int"))
 						ktyp = sc.getType("int")
 					}
+					if ktyp == nil || isPtr(o.typ) && o.typ.TypeOf().Elem().Kind() != reflect.Array {
+						err = o.cfgErrorf("cannot range over %s", o.typ.id())
+						return false
+					}
 
 					kindex := sc.add(ktyp)
 					sc.sym[k.ident] = &symbol{index: kindex, kind: varSym, typ: ktyp}
@@ -2200,6 +2204,11 @@ func (interp *Interpreter) cfg(root *node, sc *scope, importPath, pkgName string
 			if l == 0 {
 				// Switch is empty
 				break
+			}
+			if n.kind == switchStmt {
+				if err = check.switchCases(n.child[len(n.child)-2], clauses); err != nil {
+					break
+				}
 			}
 			// The default clause, wherever it is, is taken when no other clause matches.
 			nextTest := n
